@@ -7,6 +7,7 @@ package main
 import (
 	"fmt"
 	"math"
+	"unicode/utf8"
 
 	"go.opentelemetry.io/collector/pdata/pcommon"
 	"go.opentelemetry.io/collector/pdata/plog"
@@ -22,6 +23,14 @@ type OGen struct {
 	// Mono: low-entropy mode — every string, number, key and timestamp is drawn from a pool of Mono
 	// values (1 or 2), so that sorted groups span whole tables and repeat across the batches of a stream
 	Mono int
+	// Zero: every scalar drawn is the zero of its type (empty string, 0, 0.0, false, empty bytes, zero counts) while
+	// the shape (which fields are set, of which type) stays random: the degenerate-but-valid batches that leave
+	// optional columns absent at the start of a stream
+	Zero bool
+	// BadUTF8: strings may be invalid UTF-8 (only where the property puts no restriction on strings: C08)
+	BadUTF8 bool
+	// seen: a few attribute values generated earlier on this stream, from which near-copies (twins) are derived
+	seen []pcommon.Value
 }
 
 // monoPick: a quarter of the histories are low-entropy
@@ -36,6 +45,12 @@ func monoPick(r *Rng) int {
 }
 
 func (g *OGen) str() string {
+	if g.Zero {
+		return ""
+	}
+	if g.BadUTF8 && g.r.Chance(25) {
+		return []string{"\xff\xfe", "a\x80b", "\xc3"}[g.r.Intn(3)] // not valid UTF-8 (C08: no domain restriction on strings)
+	}
 	if g.Mono > 0 {
 		return []string{"retry", "again"}[g.r.Intn(g.Mono)]
 	}
@@ -56,6 +71,9 @@ func (g *OGen) str() string {
 }
 
 func (g *OGen) i64() int64 {
+	if g.Zero {
+		return 0
+	}
 	if g.Mono > 0 {
 		return int64(7 + g.r.Intn(g.Mono))
 	}
@@ -78,6 +96,9 @@ func (g *OGen) i64() int64 {
 }
 
 func (g *OGen) f64() float64 {
+	if g.Zero {
+		return 0
+	}
 	if g.Mono > 0 {
 		return 2.5 + float64(g.r.Intn(g.Mono))
 	}
@@ -100,6 +121,9 @@ func (g *OGen) f64() float64 {
 }
 
 func (g *OGen) bytes() []byte {
+	if g.Zero {
+		return []byte{}
+	}
 	if g.Mono > 0 {
 		return []byte{byte(1 + g.r.Intn(g.Mono))}
 	}
@@ -118,7 +142,85 @@ func (g *OGen) bytes() []byte {
 	}
 }
 
+// twin: v becomes a near-copy of src — equal except at one nested position, where the value is replaced by one that an
+// encoder or decoder might confuse with it (empty bytes / unset, 0.0 / -0.0, false / unset, 1 / 1.0 / "1", "" / unset)
+func (g *OGen) twin(src, v pcommon.Value) {
+	src.CopyTo(v)
+	var leaves []pcommon.Value
+	var walk func(x pcommon.Value)
+	walk = func(x pcommon.Value) {
+		switch x.Type() {
+		case pcommon.ValueTypeSlice:
+			for i := 0; i < x.Slice().Len(); i++ {
+				walk(x.Slice().At(i))
+			}
+		case pcommon.ValueTypeMap:
+			x.Map().Range(func(_ string, e pcommon.Value) bool { walk(e); return true })
+		default:
+			leaves = append(leaves, x)
+		}
+	}
+	walk(v)
+	if len(leaves) == 0 {
+		return
+	}
+	x := leaves[g.r.Intn(len(leaves))]
+	switch x.Type() {
+	case pcommon.ValueTypeEmpty:
+		if g.r.Bool() {
+			x.SetEmptyBytes()
+		} else {
+			x.SetStr("")
+		}
+	case pcommon.ValueTypeBytes:
+		if x.Bytes().Len() == 0 {
+			pcommon.NewValueEmpty().CopyTo(x)
+		} else if raw := x.Bytes().AsRaw(); utf8.Valid(raw) { // the round-trip properties restrict strings to valid UTF-8
+			x.SetStr(string(raw))
+		}
+	case pcommon.ValueTypeStr:
+		if x.Str() == "" {
+			x.SetEmptyBytes()
+		} else {
+			x.SetEmptyBytes().FromRaw([]byte(x.Str()))
+		}
+	case pcommon.ValueTypeInt:
+		if g.r.Bool() {
+			x.SetDouble(float64(x.Int()))
+		} else {
+			x.SetStr(fmt.Sprint(x.Int()))
+		}
+	case pcommon.ValueTypeDouble:
+		if x.Double() == 0 {
+			x.SetDouble(math.Copysign(0, -1))
+		} else {
+			x.SetInt(int64(x.Double()))
+		}
+	case pcommon.ValueTypeBool:
+		if x.Bool() {
+			x.SetStr("true")
+		} else {
+			pcommon.NewValueEmpty().CopyTo(x)
+		}
+	}
+}
+
 func (g *OGen) Value(v pcommon.Value, depth int) {
+	if depth >= 2 && len(g.seen) > 0 && !g.Zero && g.r.Chance(12) {
+		g.twin(g.seen[g.r.Intn(len(g.seen))], v)
+		return
+	}
+	defer func() {
+		if depth >= 2 && (v.Type() == pcommon.ValueTypeSlice || v.Type() == pcommon.ValueTypeMap || g.r.Chance(20)) {
+			c := pcommon.NewValueEmpty()
+			v.CopyTo(c)
+			if len(g.seen) < 8 {
+				g.seen = append(g.seen, c)
+			} else {
+				g.seen[g.r.Intn(8)] = c
+			}
+		}
+	}()
 	k := g.r.Intn(10)
 	if depth <= 0 && k >= 8 {
 		k = g.r.Intn(8)
@@ -133,7 +235,7 @@ func (g *OGen) Value(v pcommon.Value, depth int) {
 	case 5:
 		v.SetDouble(g.f64())
 	case 6:
-		v.SetBool(g.r.Bool())
+		v.SetBool(g.r.Bool() && !g.Zero)
 	case 7:
 		v.SetEmptyBytes().FromRaw(g.bytes())
 	case 8:
@@ -445,6 +547,9 @@ func (g *OGen) exemplars(es pmetric.ExemplarSlice) {
 }
 
 func (g *OGen) u64() uint64 {
+	if g.Zero {
+		return 0
+	}
 	switch g.r.Intn(5) {
 	case 0:
 		return 0
